@@ -8,7 +8,10 @@ META = dict(
          "6 in thorough; all subsets for verbs with at most 5 clauses) is written in every order, built with the real Builder "
          "from an in-memory file, and the structural dump of the resulting house (framers, frames, links, every act with actor "
          "class/name/inits/ioinits/parms/inode/context, loggers, logs, servers, initial shares) is compared with the dump for "
-         "the documented order; if the documented order fails, every order must fail with the same error. Each verb has two "
+         "the documented order; if the documented order fails, every order must fail with the same error. framer, logger and "
+         "server are additionally enumerated for every schedule (`be` active/inactive/aux/slave/moot resp. active/inactive/"
+         "slave) x every order (`in` front/mid/back), so the house list a tasker lands in (fronts/mids/backs/taskables/"
+         "slaves/auxes/moots, all in the dump) cannot depend on clause order. Each verb has two "
          "clause-text variants (multi-word names, field lists present/absent, relation clauses with optional names).",
     note="Each clause sets a distinct key, so order-dependent overriding is excluded by construction; the act's 'human' string "
          "(the command text itself) is excluded from the comparison. Clause texts are fixed per variant, not enumerated.",
